@@ -20,6 +20,10 @@ pub struct RunSpec {
     pub quiet_err: Vec<(String, String)>,
     pub quiet_out: Vec<(String, String)>,
     pub lines: usize,
+    /// an invocation that aborts before it completes (1 = malformed argmap file, 2 = undefined sequence);
+    /// it is not a completed run, so nothing the APIs show may change
+    #[serde(default)]
+    pub abort: u8,
 }
 
 #[derive(Debug, Clone, Serialize, Deserialize)]
@@ -41,6 +45,7 @@ pub fn strategy() -> impl Strategy<Value = Case> {
                 vec((any::<u16>(), any::<u16>()), 0..=2),
                 vec((any::<u16>(), any::<u16>()), 0..=1),
                 1usize..=3,
+                prop_oneof![5 => Just(0u8), 1 => Just(1u8), 1 => Just(2u8)],
             );
             (Just(m), Just(nt), vec(run, 1..=(3 * m + 3)))
         })
@@ -48,7 +53,7 @@ pub fn strategy() -> impl Strategy<Value = Case> {
             let tname = |i: usize| format!("t{}", i);
             let runs = rruns
                 .into_iter()
-                .map(|(cmds, tsel, fail, qe, qo, lines)| {
+                .map(|(cmds, tsel, fail, qe, qo, lines, abort)| {
                     let commands: Vec<String> = cmds.iter().map(|s| s.to_string()).collect();
                     let mut targets: Vec<String> = tsel.iter().map(|&i| tname(i)).collect();
                     let all: Vec<String> = (0..nt).map(tname).collect();
@@ -73,6 +78,7 @@ pub fn strategy() -> impl Strategy<Value = Case> {
                         quiet_err,
                         quiet_out,
                         lines,
+                        abort,
                     }
                 })
                 .collect();
@@ -131,6 +137,8 @@ pub fn check(case: &Case, w: usize) -> CheckResult {
     // history of completed runs: (slot id, printed doc, logs, (command,target) set)
     let mut history: Vec<(String, Value, Logs, BTreeSet<(String, String)>)> = vec![];
     let mut slot_reuse_differs = false;
+    let mut aborted = 0;
+    let mut tainted: BTreeSet<String> = BTreeSet::new();
     for (k, r) in case.runs.iter().enumerate() {
         let pool: Vec<String> = if r.targets.is_empty() { cfg.target_paths() } else { r.targets.clone() };
         let mut plan = BTreeMap::new();
@@ -170,6 +178,63 @@ pub fn check(case: &Case, w: usize) -> CheckResult {
         if !r.targets.is_empty() {
             args.push("-t".into());
             args.extend(r.targets.iter().cloned());
+        }
+        if r.abort != 0 && case.max_retained >= 2 {
+            // an invocation that must fail before completing (with a single slot the aborted
+            // invocation necessarily reuses the slot of the last run; the statement's
+            // crash-safety sibling C13 is also limited to max_retained_runs >= 2)
+            if r.abort == 1 {
+                for t in &cfg.targets {
+                    env.write_file(&format!("{}/monorail/argmap/broken.json", t.path), b"{ this is not json");
+                }
+                args.push("--argmaps".into());
+                args.push("broken".into());
+            } else {
+                args.push("-s".into());
+                args.push("no-such-sequence".into());
+            }
+            let argv: Vec<&str> = args.iter().map(|s| s.as_str()).collect();
+            let out = env.mr(&argv);
+            if out.code == Some(0) {
+                return inconclusive(format!("an invocation that should abort succeeded: {}", out.brief()));
+            }
+            aborted += 1;
+            // the aborted invocation may have claimed and wiped one of the older slots (which one is
+            // not modelled): `--id` of older runs is not judged until their slot is used again
+            if let Some(last) = history.last() {
+                let keep = last.0.clone();
+                for h in history.iter() {
+                    if h.0 != keep {
+                        tainted.insert(h.0.clone());
+                    }
+                }
+            }
+            // everything must still show the last completed run
+            if let Some((_, last_doc, last_logs, _)) = history.last() {
+                let rs = env.mr(&["result", "show"]);
+                match rs.json() {
+                    Some(rv) if bb::strip_timestamp(&rv) == bb::strip_timestamp(last_doc) => {}
+                    _ => {
+                        return viol_obs(
+                            "c12.result.show.after.abort",
+                            format!("after invocation {} aborted, `result show` no longer returns the last completed run", k),
+                            rs.brief(),
+                        )
+                    }
+                }
+                match show_logs(&mut env, None)? {
+                    Ok(shown) if &shown == last_logs => {}
+                    Ok(shown) => {
+                        return viol_obs(
+                            "c12.logshow.after.abort",
+                            format!("after invocation {} aborted, `log show` no longer shows the last completed run", k),
+                            json!({"expected": blocks_brief(last_logs), "shown": blocks_brief(&shown)}),
+                        )
+                    }
+                    Err(e) => return viol("c12.logshow.after.abort", format!("log show failed after an aborted invocation: {}", e)),
+                }
+            }
+            continue;
         }
         let argv: Vec<&str> = args.iter().map(|s| s.as_str()).collect();
         let out = env.mr(&argv);
@@ -213,6 +278,7 @@ pub fn check(case: &Case, w: usize) -> CheckResult {
             }
         }
         history.retain(|h| h.0 != slot);
+        tainted.remove(&slot);
         history.push((slot.clone(), doc.clone(), logs.clone(), pairs));
 
         // result show == the document this run printed
@@ -247,6 +313,9 @@ pub fn check(case: &Case, w: usize) -> CheckResult {
         let keep = case.max_retained.min(history.len());
         let recent: Vec<_> = history.iter().rev().take(keep).cloned().collect();
         for (slot_id, _doc, lg, _) in &recent {
+            if tainted.contains(slot_id) {
+                continue;
+            }
             match show_logs(&mut env, Some(slot_id))? {
                 Ok(shown) => {
                     if &shown != lg {
@@ -282,6 +351,7 @@ pub fn check(case: &Case, w: usize) -> CheckResult {
         .class(&format!("wraps={}", wraps.min(2)))
         .class_if(case.runs.iter().any(|r| r.fail.is_some()), "has-failed-run")
         .class_if(slot_reuse_differs, "slot-reuse-with-different-tasks")
+        .class_if(aborted > 0, "aborted-invocations")
         .inv(env.invocations))
 }
 
@@ -295,13 +365,14 @@ fn blocks_brief(l: &Logs) -> Value {
 
 pub fn run(ctx: &mut Ctx) {
     ctx.rule = "max_retained_runs M in 1..5 x a history of 1..3M+3 runs, each with its own command subset, target selection, per-task output tagged with the run number, \
-silent streams, and (25%) one failing task. model: the ids in use and, per id, the document and logs of its latest occupant. after every run: `result show` == printed document \
+silent streams, (25%) one failing task, and (2 in 7) invocations that abort before completing (malformed argmap file, undefined sequence) after which everything must still show the last completed run. model: the ids in use and, per id, the document and logs of its latest occupant. after every run: `result show` == printed document \
 (modulo timestamp); `log show` == exactly that run's non-empty logs as a set of (header, bytes) blocks; `log show --id` for each of the last min(k,M) runs; <= M ids and directories. \
 non-trivial = history longer than M in which two runs sharing an id differ in their (command,target) sets; distinct by SHA-256"
         .to_string();
     ctx.assumptions = vec![
         "runs with a failing task use -t so that no sibling shares its group (sibling cancellation would truncate logs)".into(),
         "the id of a run is read from out.run.path of its printed document".into(),
+        "aborting invocations are generated for max_retained_runs >= 2 only; after one, `--id` of older runs is not judged until their slot is reused".into(),
     ];
     let n = ctx.n(150, 3000);
     ctx.drive("history", strategy, n, check);
